@@ -439,6 +439,10 @@ class Model:
     def unroll(self, block, name=None):
         """apply modifiers in place: n chained copies of the content, nested counts multiply, counts reset."""
         n = self.node_reps(block)
+        # nested blocks first: the copies of this block are chained behind what the block finally contains
+        for m in list(block.members):
+            if m.is_comp:
+                self.unroll(m, name)
         if n > 1:
             original = self.copy_tree(block)
             for _ in range(n - 1):
@@ -460,9 +464,6 @@ class Model:
                             m.rel = ("MULTI", list(la))
                 block.members.extend(cp.members)
         block.reps = ("fixed", 1)
-        for m in list(block.members):
-            if m.is_comp:
-                self.unroll(m, name)
 
     def apply(self, name, as_name):
         self.unroll(self.roots[name], name)
